@@ -43,7 +43,7 @@ def FLOORS(tier):
     q = tier == "quick"
     return {"det:in-process": 400 if q else 15000, "det:fresh-process": 400 if q else 15000,
             "det:without-initial_state": 150, "T0:reference-sweeps": 100 if q else 4000, "T0:flips-seen": 150, "T0:schedule-container:generator": 20,
-            "T0:labelled-with-user-mapping": 60, "T0:tiny-scale": 40, "chi2:rare-uphill-ratchet": 8, "T0:infinite-temperature-prefix": 60, "T0:schedule-longer-than-default-duration": 15,
+            "T0:labelled-with-user-mapping": 60, "T0:schedule-container:linear-with-zero-range": 15, "T0:tiny-scale": 40, "chi2:rare-uphill-ratchet": 8, "T0:infinite-temperature-prefix": 60, "T0:schedule-longer-than-default-duration": 15,
             "T0:anneal_duration-given-with-explicit-schedule": 40,
             "chi2:tests": 40 if q else 1500, "chi2:random-order": 12, "chi2:in-order": 12, "chi2:cubic": 8,
             "chi2:boolean-front-end": 8, "hook-dE-checks": 10 ** 6 if q else 5 * 10 ** 7, "hook-exactness-verdicts": 300, "hook:big-workloads": 8}
@@ -283,6 +283,8 @@ def case_t0(ctx, rng, idx):
     w = {"function": fn, "type": tn, "terms": terms, "labels_by_index": name, "mapping": dict(getattr(M, "mapping", {})),
          "kwargs": dict(kw, schedule="[inf]*%d + [0]*%d" % (hot, k))}
     cont = rng.choice(["list", "list", "tuple", "generator", "iter", "ndarray"])
+    if hot == 0 and rng.random() < 0.15:
+        cont = "linear-with-zero-range"       # the named 'linear' schedule between T0 = Tf = 0: k zero-temperature sweeps
     w["schedule_container"] = cont
     ctx.cat("T0:schedule-container:" + cont)
     if cont == "tuple":
@@ -293,6 +295,10 @@ def case_t0(ctx, rng, idx):
         kw["schedule"] = iter(list(sched))
     elif cont == "ndarray":
         kw["schedule"] = np.array(sched, dtype=float)
+    elif cont == "linear-with-zero-range":
+        kw["schedule"] = "linear"
+        kw["temperature_range"] = (0, 0)
+        kw["anneal_duration"] = k
     ok, res = ctx.call(fn, getattr(L.sim, fn), M, _w=w, **kw)
     if not ok:
         return
@@ -359,6 +365,10 @@ def case_chi2(ctx, rng, idx):
     dom = (1, -1) if spin else (0, 1)
     init = [rng.choice(dom) for _ in range(n)]
     Ts = [rng.choice([0.6, 0.9, 1.3, 2.0, 0.4]) for _ in range(rng.randint(1, 3))]
+    if rng.random() < 0.2:
+        # temperatures spelled as ints / numpy scalars ("an iterable of floats" in practice)
+        Ts = [rng.choice([1, 2, np.int64(1), np.float32(0.5), np.float64(2.0)]) for _ in range(rng.randint(1, 3))]
+        ctx.cat("chi2:temperatures-not-python-floats")
     if zero_step:
         Ts.insert(rng.randrange(len(Ts) + 1), 0)        # a zero-temperature sweep inside a positive schedule
         ctx.cat("chi2:with-zero-temperature-step")
